@@ -5,9 +5,10 @@ VERIF = os.path.dirname(os.path.dirname(os.path.abspath(__file__)))
 sys.path.insert(0, os.path.join(VERIF, 'driver'))
 from props import PROPS
 allp = [json.loads(l)['id'] for l in open(os.path.join(VERIF, 'properties.jsonl'))]
+claimed = set(open(os.path.join(VERIF, 'driver', 'claimed.txt')).read().split())
 checks = []
 for pid in allp:
-    if pid not in PROPS:
+    if pid not in PROPS or pid not in claimed:
         continue
     c = PROPS[pid]
     checks.append({
@@ -28,7 +29,7 @@ try:
 except ImportError:
     pass
 for pid in allp:
-    if pid not in PROPS:
+    if pid not in PROPS or pid not in claimed:
         na.append({'property_id': pid, 'reason': NA.get(pid, 'check not built yet in this session; no claim is made')})
 m = {
     'version': 1,
